@@ -78,15 +78,33 @@ Theorem C19_event_paths_below : forall root, root <> [] -> last_is_sep root = fa
 Proof. exact emit_paths_below. Qed.
 Print Assumptions C19_event_paths_below.
 
+(* an item as the pipeline delivers it - a single record the reader produced ([raw_ok]: below the root, or about a
+   watched directory itself with a mask that never reports the parent), or the two halves of a rename, both below the
+   root: no exception at all *)
+Theorem C19_event_paths_strict : forall root, root <> [] -> last_is_sep root = false ->
+  forall full rec wp content it,
+  match it with
+  | Single x => raw_ok root x
+  | Pair f t => below root (r_path f) /\ below root (r_path t)
+  end ->
+  (forall p, wf_tree (content p) = true) ->
+  forall e, In e (fst (emit full rec wp content it)) -> ev_ok root e.
+Proof. exact emit_paths_strict. Qed.
+Print Assumptions C19_event_paths_strict.
+
 (* ---- the pipeline: file system + kernel + reader + buffer + emitter, any action list (operations with valid
-   basenames, arbitrary read cuts, ticks, emits), any emitter flavour / filter / recursive flag / fault plan *)
+   basenames, arbitrary read cuts, ticks, emits), any emitter flavour / filter / recursive flag / fault plan, any
+   initial tree with valid basenames: the reader invariant holds in every reachable state, every InotifyEvent ever
+   produced has a rooted path, and EVERY path of EVERY delivered event is empty or rooted (the root's own parent is
+   never reported: the kernel sends no named-less record whose mask reports a parent, and the buffer pairs only
+   IN_MOVED_FROM / IN_MOVED_TO records, which always carry names) *)
 Theorem C19_pipeline_paths : forall P, c_root (pc_reader P) <> [] -> last_is_sep (c_root (pc_reader P)) = false ->
   forall w s0 h s obs,
   fs_names_ok (w_fs w) -> (forall o, In (AOp o) h -> op_names_ok o) ->
   pinit P w = Some s0 -> prun P s0 h [] = Done (s, obs) ->
+  path_inv (c_root (pc_reader P)) (p_r s) /\
   (forall i x, In (i, x) (p_tbl s) -> rooted (c_root (pc_reader P)) (r_path x)) /\
-  (forall e, In e (p_out s) ->
-     ev_ok (c_root (pc_reader P)) e \/ e = parent_modified (c_root (pc_reader P))).
+  (forall e, In e (p_out s) -> ev_ok (c_root (pc_reader P)) e).
 Proof. exact pipeline_paths. Qed.
 Print Assumptions C19_pipeline_paths.
 
